@@ -67,10 +67,16 @@ Definition num_parts (s : sexp) : option (bool * bool * Z * N * N) :=
   | _ => None
   end.
 
+(* (inf NEG): %#v of an infinite float prints +Inf / -Inf *)
 Definition float_match (w32 n : bool) (m : N) (s : sexp) : bool :=
   match num_parts s with
   | Some (ng, _, _, f64, f32) => (Bool.eqb ng n && N.eqb (if w32 then f32 else f64) m)%bool
-  | None => false
+  | None =>
+      match s with
+      | L [Sym h; Num ng] =>
+          (String.eqb h "inf" && Bool.eqb (Z.eqb ng 1) n && N.eqb m (if w32 then f32_inf else f64_inf))%bool
+      | _ => false
+      end
   end.
 
 Fixpoint ns_eqb (a b : list N) : bool :=
